@@ -26,7 +26,7 @@ ASSIGN = ("set", "setitem", "setcfg", "itemset", "cmdline")
 
 def bounds(tier):
     leaves = list(W.catalogue()) if tier == "thorough" else W.quick_leaves() + ["list-int-cd", "dict-typed-cd", "int-cd", "challenge-dflt", "list-any-dflt"]
-    return {"shapes": ["flat", "nested", "cfglist", "dynamic"], "leaves": leaves, "depth": 4 if tier == "thorough" else 2}
+    return {"shapes": ["flat", "nested", "cfglist", "dynamic", "nested-v"], "leaves": leaves, "depth": 4 if tier == "thorough" else 2}
 
 
 def jobs(tier):
